@@ -178,6 +178,7 @@ func (s ruSet) sorted() []string {
 type ruSite struct {
 	callee   string
 	assigned []string
+	values   []string // "field=token" for every value assigned to a definitely assigned field so far
 }
 
 // ruDA is the definite-assignment walk over one entry point.
@@ -189,7 +190,67 @@ type ruDA struct {
 	ever     ruSet
 	active   map[string]bool
 	order    []string // fields in order of first assignment (for readable output)
+	vals     map[string]ruSet // every value token assigned to a field so far (in traversal order, never killed)
 	err      error
+}
+
+// ruValueToken classifies the right-hand side of a reset: lit:<n>, nil, ident:<name>, empty (a
+// zero-length reslice `x[:0]` or `make(T, 0[, n])`), other.
+func ruValueToken(x ast.Expr) string {
+	switch t := x.(type) {
+	case *ast.ParenExpr:
+		return ruValueToken(t.X)
+	case *ast.BasicLit:
+		return "lit:" + t.Value
+	case *ast.UnaryExpr:
+		if bl, ok := t.X.(*ast.BasicLit); ok && (t.Op == token.SUB || t.Op == token.ADD) {
+			if t.Op == token.SUB {
+				return "lit:-" + bl.Value
+			}
+			return "lit:" + bl.Value
+		}
+	case *ast.Ident:
+		switch t.Name {
+		case "nil":
+			return "nil"
+		case "true", "false":
+			return "lit:" + t.Name
+		}
+		return "ident:" + t.Name
+	case *ast.SliceExpr:
+		if t.Low == nil && t.Max == nil {
+			if bl, ok := t.High.(*ast.BasicLit); ok && bl.Value == "0" {
+				return "empty"
+			}
+		}
+	case *ast.CallExpr:
+		if id, ok := t.Fun.(*ast.Ident); ok && id.Name == "make" && len(t.Args) >= 2 {
+			if bl, ok := t.Args[1].(*ast.BasicLit); ok && bl.Value == "0" {
+				return "empty"
+			}
+		}
+	}
+	return "other"
+}
+
+// ruLeanPairs writes "field=token" strings as a list of pairs.
+func ruLeanPairs(xs []string) string {
+	q := make([]string, len(xs))
+	for i, x := range xs {
+		k := strings.IndexByte(x, '=')
+		q[i] = "(" + ruLeanStr(x[:k]) + ", " + ruLeanStr(x[k+1:]) + ")"
+	}
+	return "[" + strings.Join(q, ", ") + "]"
+}
+
+func (d *ruDA) siteValues(a ruSet) []string {
+	var out []string
+	for _, f := range a.sorted() {
+		for _, v := range d.vals[f].sorted() {
+			out = append(out, f+"="+v)
+		}
+	}
+	return out
 }
 
 func (d *ruDA) note(path string) {
@@ -216,7 +277,7 @@ func (d *ruDA) calls(x ast.Node, recv string, a ruSet, depth int) ruSet {
 				if id, ok := se.X.(*ast.Ident); ok && id.Name == recv {
 					name := se.Sel.Name
 					if d.targets[name] {
-						d.sites = append(d.sites, ruSite{callee: name, assigned: a.sorted()})
+						d.sites = append(d.sites, ruSite{callee: name, assigned: a.sorted(), values: d.siteValues(a)})
 					} else if fd := d.p.funcs[d.recvType+"."+name]; fd != nil && fd.Body != nil && depth < 4 && !d.active[name] {
 						// follow other methods of the receiver (not recursively, depth ≤ 4: beyond that
 						// nothing is added, which under-approximates the assigned set)
@@ -261,10 +322,18 @@ func (d *ruDA) block(stmts []ast.Stmt, recv string, a ruSet, depth int) (ruSet, 
 				a = d.calls(l, recv, a, depth)
 			}
 			if t.Tok == token.ASSIGN {
-				for _, l := range t.Lhs {
+				for i, l := range t.Lhs {
 					if path, ok := ruPath(l, recv); ok {
 						a[path] = true
 						d.note(path)
+						tok := "other"
+						if len(t.Lhs) == len(t.Rhs) {
+							tok = ruValueToken(t.Rhs[i])
+						}
+						if d.vals[path] == nil {
+							d.vals[path] = ruSet{}
+						}
+						d.vals[path][tok] = true
 					}
 				}
 			}
@@ -1027,7 +1096,7 @@ func extractReuse(repo, out string) ([]string, error) {
 	var b strings.Builder
 	b.WriteString("/-! generated by tools/extract/reuse.go from the Go source — do not edit. -/\n")
 	b.WriteString("namespace OjgVerif.Gen.ReuseFacts\n\n")
-	b.WriteString("structure Site where\n  callee : String\n  assigned : List String\n  deriving DecidableEq, Repr\n\n")
+	b.WriteString("structure Site where\n  callee : String\n  assigned : List String\n  values : List (String × String)\n  deriving DecidableEq, Repr\n\n")
 	b.WriteString("structure Entry where\n  name : String\n  recv : String\n  sites : List Site\n  ever : List String\n  deriving DecidableEq, Repr\n\n")
 	b.WriteString("structure Pooled where\n  name : String\n  pool : String\n  deferredPut : Bool\n  result : String\n  deriving DecidableEq, Repr\n\n")
 	b.WriteString("structure Cache where\n  pkg : String\n  touchers : List String\n  lockers : List String\n  unlockedRoots : List String\n" +
@@ -1044,7 +1113,7 @@ func extractReuse(repo, out string) ([]string, error) {
 		if fd == nil || fd.Body == nil {
 			return nil, fmt.Errorf("reuse: entry point %s.%s.%s not found", es.pkg, es.recv, es.method)
 		}
-		d := &ruDA{p: p, recvType: es.recv, targets: map[string]bool{}, ever: ruSet{}, active: map[string]bool{}}
+		d := &ruDA{p: p, recvType: es.recv, targets: map[string]bool{}, ever: ruSet{}, active: map[string]bool{}, vals: map[string]ruSet{}}
 		for _, t := range es.targets {
 			if p.funcs[es.recv+"."+t] == nil {
 				return nil, fmt.Errorf("reuse: working function %s.%s.%s not found", es.pkg, es.recv, t)
@@ -1060,7 +1129,7 @@ func extractReuse(repo, out string) ([]string, error) {
 		}
 		var ss []string
 		for _, s := range d.sites {
-			ss = append(ss, fmt.Sprintf("{ callee := %s, assigned := %s }", ruLeanStr(s.callee), ruLeanList(s.assigned)))
+			ss = append(ss, fmt.Sprintf("{ callee := %s, assigned := %s,\n                values := %s }", ruLeanStr(s.callee), ruLeanList(s.assigned), ruLeanPairs(s.values)))
 		}
 		sep := ","
 		if i == len(ruEntries)-1 {
